@@ -157,14 +157,15 @@ def procCmd (ws : List String) : Option String :=
       if v.length ≠ n then none else
       some (vecCmd (kind == "env") msize p b cP sP v)
     else none
-  | ["clockf", id, sec, nsec] => do
+  | "clockf" :: id :: rest => do
+    -- `clockf id sec nsec` (precision 1) | `clockf id precision sec nsec`
     let id ← id.toNat?
-    let sec ← sec.toInt?
-    let nsec ← nsec.toInt?
-    let name := match Gen.WasiPath.clockTable.find? (fun r => r.1 == id) with
-      | some (_, n) => n
-      | none => "none"
-    match clockTimeGet (fun _ => .inr (sec, nsec)) id (List.replicate 8 0xAA) 0 with
+    let (prec, sec, nsec) ← match rest with
+      | [sec, nsec] => some ((1 : Nat), ← sec.toInt?, ← nsec.toInt?)
+      | [p, sec, nsec] => some (← p.toNat?, ← sec.toInt?, ← nsec.toInt?)
+      | _ => none
+    let name := (clockNative id prec).getD "none"
+    match clockTimeGet (fun _ => .inr (sec, nsec)) id prec (List.replicate 8 0xAA) 0 with
     | .val (0, m) =>
       let u := leVal m
       let v : Int := if u < 9223372036854775808 then u else (u : Int) - 18446744073709551616
